@@ -470,9 +470,6 @@ def _canon_term(t, facts):
         factors = factors + [F("#dim", (), False, len(extra))]
         factors = _merge_scalars(factors)
         dummies = [d for d in dummies if d in used]
-    if len(dummies) > 7:
-        raise OverflowError("too many dummies in one term: %d" % len(dummies))
-
     def render(mp):
         fs = []
         for f in factors:
@@ -485,10 +482,41 @@ def _canon_term(t, facts):
         ds = sorted(tuple(sorted((mp.get(a, a), mp.get(b, b)))) for a, b in t.deltas)
         return (tuple(fs), tuple(ds))
 
+    # partition the dummies by an occurrence signature (two refinement
+    # rounds), then minimise over permutations inside each class only
+    dset = set(dummies)
+
+    def occ_sig(d, other):
+        out = []
+        for f in factors:
+            for pos, i in enumerate(f.idx):
+                if i == d:
+                    ctx = tuple(other(j) if j in dset else j for j in f.idx)
+                    if f.name in facts.symmetric and len(ctx) >= 2:
+                        ctx = ctx[:-2] + tuple(sorted(ctx[-2:]))
+                    out.append((f.name, f.conj, f.pow, pos if f.name not in facts.symmetric else -1, ctx))
+        for a, b in t.deltas:
+            if a == d or b == d:
+                o = b if a == d else a
+                out.append(("#delta", False, 1, 0, (other(o) if o in dset else o,)))
+        return tuple(sorted(out))
+    sig0 = {d: occ_sig(d, lambda j: "*") for d in dummies}
+    sig1 = {d: occ_sig(d, lambda j: repr(sig0[j])) for d in dummies}
+    classes = {}
+    for d in dummies:
+        classes.setdefault(repr(sig1[d]), []).append(d)
+    groups = [classes[k] for k in sorted(classes)]
+    ncomb = 1
+    for g in groups:
+        for k in range(2, len(g) + 1):
+            ncomb *= k
+    if ncomb > 50000:
+        raise OverflowError("too many dummy permutations in one term: %d" % ncomb)
     best = None
     names = ["~%d" % i for i in range(len(dummies))]
-    for perm in itertools.permutations(names):
-        mp = dict(zip(dummies, perm))
+    for combo in itertools.product(*[itertools.permutations(g) for g in groups]):
+        order = [d for g in combo for d in g]
+        mp = dict(zip(order, names))
         r = render(mp)
         if best is None or r < best:
             best = r
